@@ -33,6 +33,7 @@ func TestC03(t *testing.T) {
 		"0/7 random mixes (start counter ∈ {none,0,1,2^31,2^32−70..2^32−1,random}; n ∈ {0,1,63,64,65,127,128,129,255,256,257,511,512,513} ∪ U[0,5000]; SetCounter to ceil, +1, +k, 2^32−1, below floor, into the partial block), " +
 		"1 reach the exact end of the keystream by positioning near 2^32 and splitting the remaining bytes arbitrarily, then probe XORKeyStream(0)/(≥1)/SetCounter, " +
 		"2 cross the end by 1..k bytes, 3 forward SetCounter while keystream bytes are buffered, 4 rollback below floor(pos/64), 5 rollback into the partially consumed block, 6 partial reads inside the last block. " +
+		"Separate stream (kind 8): chained calls with len(dst) = len(src)+{1,63,64,200} (src lengths at the 64-byte buffer edges {1,63,64,65,…,1023,1024,1025} ∪ U[1,1500]), interleaved with exact-length calls, zero-length calls and forward SetCounter; in all other kinds every second history passes oversized dst on most calls and the rest on 1/8 of the calls. The destination buffer is random filler: everything outside dst[:len(src)] must be unchanged (documented), and the concatenated output of every SetCounter-free call sequence is compared with one reference computation. " +
 		"Every step is judged against the position model; dst==src or disjoint, random misalignment. distinct key = (kind, nonce length, step class, pos mod 64 class, length class); non-trivial = a step that produced bytes compared with the reference or an expected/forbidden panic observation")
 	m.Assume("executable specification h/ref/chachastream (RFC 8439 §2.3 block function by byte position, HChaCha20/XChaCha20 derivation), validated by RFC 8439 §2.1.1/2.3.2/2.4.2/2.6.2, draft-xchacha §2.2.1 and libsodium xchacha20 vectors in its own test; libsodium crypto_stream_*_xor_ic / crypto_core_hchacha20 as witness (oracle conflicts are inconclusive, not violations)")
 	m.Assume("documented panics (chacha_generic.go doc comments): SetCounter panics if counter is less than the current value; XORKeyStream must not wrap the 32-bit block counter. Post-panic Cipher state is undocumented, so a history ends at its first panic")
@@ -44,6 +45,13 @@ func TestC03(t *testing.T) {
 
 	m.Cases("hist", m.N(16000, 400000), func(i int64, r *rand.Rand) {
 		h := newHist(m, i, r, sodium)
+		h.run()
+	})
+
+	// dst longer than src (documented as acceptable): chained on one cipher
+	m.Cases("dstlong", m.N(4000, 100000), func(i int64, r *rand.Rand) {
+		h := newHist(m, i, r, sodium)
+		h.kind, h.dstLong = 8, true
 		h.run()
 	})
 
@@ -81,6 +89,10 @@ func TestC03(t *testing.T) {
 	m.Gate("panic_partial_block_seen", min, "SetCounter into the partially consumed current block observed to panic")
 	m.Gate("panic_setcounter_after_end_seen", min, "SetCounter after the keystream was exhausted observed to panic")
 	m.Gate("last_block_bytes_compared", min, "compared XORKeyStream calls touching block 2^32−1")
+	m.Gate("dst_longer_calls_tail_intact", 3000, "XORKeyStream calls with len(dst) ∈ len(src)+{1,63,64,200} whose destination buffer outside dst[:len(src)] was verified untouched")
+	m.Gate("dst_longer_calls_ending_mid_block", 2000, "oversized-dst calls ending inside a block (leftover keystream buffered)")
+	m.Gate("dst_longer_midblock_then_next_call_compared", 2000, "compared XORKeyStream calls issued after an oversized-dst call that ended inside a block, with no SetCounter in between")
+	m.Gate("segments_with_oversized_dst_compared", 2000, "SetCounter-free call sequences containing oversized-dst calls whose concatenated output was compared with one reference computation")
 	m.Gate("split_inside_block", 500, "XORKeyStream calls starting inside a block (leftover buffer drained first)")
 	m.Gate("nonce24_histories", 500, "XChaCha20 histories")
 	m.Gate("nonce12_histories", 500, "ChaCha20 histories")
@@ -107,6 +119,13 @@ type hist struct {
 	// hardening: caller-owned inputs must never change; earlier outputs must stay intact
 	keySnap, nonceSnap []byte
 	kept               []keptOut
+	// dst-longer-than-src class
+	dstLong     bool   // history in which most calls pass an oversized dst
+	longPending bool   // an oversized-dst call ended inside a block since the last SetCounter
+	segStart    uint64 // position where the current SetCounter-free segment started
+	segSrc      []byte // concatenated src of the segment
+	segOut      []byte // concatenated dst[:len(src)] of the segment
+	segLong     int    // oversized-dst calls in the segment
 }
 
 type keptOut struct {
@@ -116,6 +135,7 @@ type keptOut struct {
 
 func newHist(m *mon.M, i int64, r *rand.Rand, sodium bool) *hist {
 	h := &hist{m: m, i: i, r: r, kind: int(i % 8), sodium: sodium}
+	h.dstLong = (i/16)%2 == 1
 	h.key = mon.Bytes(r, 32)
 	if (i/8)%2 == 0 {
 		h.nonce = mon.Bytes(r, 12)
@@ -192,33 +212,67 @@ func offClass(pos uint64) string {
 	}
 }
 
-// xor performs one XORKeyStream(n) step and judges it.
+var c03Extras = []int{1, 63, 64, 200}
+
+// xor performs one XORKeyStream(n) step and judges it; the dst passed is
+// sometimes (in dstLong histories: mostly) longer than src.
 func (h *hist) xor(n int) {
+	if h.ended {
+		return
+	}
+	extra := 0
+	if h.dstLong {
+		if h.r.IntN(3) != 0 {
+			extra = mon.Pick(h.r, c03Extras)
+		}
+	} else if h.r.IntN(8) == 0 {
+		extra = mon.Pick(h.r, c03Extras)
+	}
+	h.xorX(n, extra)
+}
+
+// xorX performs XORKeyStream(dst, src) with len(src) = n and len(dst) = n+extra.
+// Documented: "It is acceptable to pass a dst bigger than src, and in that
+// case, XORKeyStream will only update dst[:len(src)] and will not touch the
+// rest of dst." Every byte of the destination buffer outside dst[:n] (the
+// oversized tail, and the slack before/after the slice) is random filler that
+// must be unchanged afterwards.
+func (h *hist) xorX(n, extra int) {
 	if h.ended {
 		return
 	}
 	r, m := h.r, h.m
 	h.nsteps++
 	off := r.IntN(8)
-	srcBuf := mon.Bytes(r, n+8)
-	src := srcBuf[off : off+n]
-	orig := append([]byte{}, src...)
+	const slack = 16
 	inplace := r.IntN(2) == 0
-	dst := src
-	if !inplace {
-		o2 := r.IntN(8)
-		dst = make([]byte, n+8)[o2 : o2+n]
+	var src, dst, dbuf []byte
+	doff := off
+	if inplace {
+		dbuf = mon.Bytes(r, off+n+extra+slack)
+		src = dbuf[off : off+n : off+n]
+	} else {
+		srcBuf := mon.Bytes(r, n+8)
+		src = srcBuf[off : off+n]
+		doff = r.IntN(8)
+		dbuf = mon.Bytes(r, doff+n+extra+slack)
 	}
+	dst = dbuf[doff : doff+n+extra : doff+n+extra]
+	orig := append([]byte{}, src...)
+	dsnap := append([]byte{}, dbuf...)
 	mode := "disjoint"
 	if inplace {
 		mode = "inplace"
+	}
+	if extra > 0 {
+		mode += fmt.Sprintf(",len(dst)=n+%d", extra)
 	}
 	h.steps = append(h.steps, fmt.Sprintf("XORKeyStream(n=%d,%s)", n, mode))
 	expectPanic := uint64(n) > c03End-h.pos
 	pv, stack := mon.Panics(func() { h.c.XORKeyStream(dst, src) })
 	m.Eval()
 	m.Count("xor_calls", 1)
-	m.Distinct(fmt.Sprintf("k%d n%d xor off=%s len=%s sc=%v panic=%v", h.kind, len(h.nonce), offClass(h.pos), lenClass(n), h.prevSC, expectPanic))
+	m.Distinct(fmt.Sprintf("k%d n%d xor off=%s len=%s sc=%v panic=%v extra=%d", h.kind, len(h.nonce), offClass(h.pos), lenClass(n), h.prevSC, expectPanic, extra))
 	if expectPanic {
 		h.ended = true
 		if pv == nil {
@@ -238,7 +292,33 @@ func (h *hist) xor(n int) {
 	}
 	want := chachastream.XOR(h.key, h.nonce, h.pos, orig)
 	touchesLast := n > 0 && h.pos+uint64(n) > c03End-64
-	if !bytes.Equal(dst, want) {
+	out := dst[:n]
+	// nothing outside dst[:n] may have been written
+	if !bytes.Equal(dbuf[:doff], dsnap[:doff]) || !bytes.Equal(dbuf[doff+n:], dsnap[doff+n:]) {
+		firstBad := doff + n
+		for firstBad < len(dbuf) && dbuf[firstBad] == dsnap[firstBad] {
+			firstBad++
+		}
+		key := "write-outside-dst"
+		if extra > 0 && bytes.Equal(dbuf[:doff], dsnap[:doff]) && bytes.Equal(dbuf[doff+n+extra:], dsnap[doff+n+extra:]) {
+			key = "dst-longer:tail-written"
+		}
+		ks := chachastream.StreamAt(h.key, h.nonce, h.pos+uint64(n), min(extra, int(c03End-h.pos)-n))
+		m.Violation(key, h.witness(map[string]any{"n": n, "len_dst": n + extra, "first_modified_offset_in_dst": firstBad - doff,
+			"dst_tail_before": mon.Hex(dsnap[doff+n : doff+n+extra]), "dst_tail_after": mon.Hex(dbuf[doff+n : doff+n+extra]), "ref_keystream_after_this_call": mon.Hex(ks)}))
+		if key != "dst-longer:tail-written" {
+			h.ended = true
+			return
+		}
+		// keep going: the following calls show whether the stream position was damaged too
+	}
+	if extra > 0 && bytes.Equal(dbuf[doff+n:], dsnap[doff+n:]) {
+		m.Count("dst_longer_calls_tail_intact", 1)
+		if n > 0 && (h.pos+uint64(n))%64 != 0 {
+			m.Count("dst_longer_calls_ending_mid_block", 1)
+		}
+	}
+	if !bytes.Equal(out, want) {
 		ctx := "aligned"
 		if h.prevSC {
 			ctx = "after-SetCounter"
@@ -249,13 +329,20 @@ func (h *hist) xor(n int) {
 			ctx += ":last-block"
 		}
 		first := 0
-		for first < n && dst[first] == want[first] {
+		for first < n && out[first] == want[first] {
 			first++
 		}
-		m.Violation(fmt.Sprintf("keystream-mismatch:nonce%d:%s", len(h.nonce), ctx),
-			h.witness(map[string]any{"n": n, "src": mon.Hex(orig), "got": mon.Hex(dst), "want": mon.Hex(want), "first_diff": first}))
+		key := fmt.Sprintf("keystream-mismatch:nonce%d:%s", len(h.nonce), ctx)
+		if h.longPending {
+			// an earlier call on this cipher passed an oversized dst and ended inside a block
+			key = fmt.Sprintf("dst-longer:stream-desync:nonce%d", len(h.nonce))
+		}
+		m.Violation(key, h.witness(map[string]any{"n": n, "src": mon.Hex(orig), "got": mon.Hex(out), "want": mon.Hex(want), "first_diff": first}))
 		h.ended = true
 		return
+	}
+	if n > 0 && h.longPending {
+		m.Count("dst_longer_midblock_then_next_call_compared", 1)
 	}
 	if !inplace && !bytes.Equal(src, orig) {
 		m.Violation("src-modified", h.witness(map[string]any{"n": n}))
@@ -299,7 +386,14 @@ func (h *hist) xor(n int) {
 	}
 	h.inputsIntact("XORKeyStream")
 	if n > 0 && len(h.kept) < 4 && (h.nsteps <= 2 || h.r.IntN(4) == 0) {
-		h.kept = append(h.kept, keptOut{dst, want, h.nsteps})
+		h.kept = append(h.kept, keptOut{out, want, h.nsteps})
+	}
+	h.segSrc, h.segOut = append(h.segSrc, orig...), append(h.segOut, out...)
+	if extra > 0 {
+		h.segLong++
+		if n > 0 && (h.pos+uint64(n))%64 != 0 {
+			h.longPending = true
+		}
 	}
 	h.pos += uint64(n)
 	if n > 0 && h.pos == c03End {
@@ -368,8 +462,32 @@ func (h *hist) setCounter(c uint32) {
 	if uint64(c) >= 1<<32-70 {
 		m.Count("positioned_near_2^32", 1)
 	}
+	h.closeSegment()
 	h.pos = 64 * uint64(c)
+	h.segStart = h.pos
+	h.longPending = false
 	h.prevSC = true
+}
+
+// closeSegment compares the concatenation of all outputs since the last
+// SetCounter with ONE reference computation over the concatenated inputs
+// (split invariance stated directly).
+func (h *hist) closeSegment() {
+	if len(h.segSrc) > 0 {
+		want := chachastream.XOR(h.key, h.nonce, h.segStart, h.segSrc)
+		h.m.Count("segments_compared_with_one_shot_ref", 1)
+		if h.segLong > 0 {
+			h.m.Count("segments_with_oversized_dst_compared", 1)
+		}
+		if !bytes.Equal(h.segOut, want) {
+			key := "concatenation-mismatch"
+			if h.segLong > 0 {
+				key = fmt.Sprintf("dst-longer:stream-desync:nonce%d", len(h.nonce))
+			}
+			h.m.Violation(key, h.witness(map[string]any{"segment_start_pos": h.segStart, "segment_len": len(h.segSrc), "oversized_dst_calls_in_segment": h.segLong}))
+		}
+	}
+	h.segSrc, h.segOut, h.segLong = nil, nil, 0
 }
 
 func (h *hist) randLen() int {
@@ -505,6 +623,7 @@ func (h *hist) run() {
 		return
 	}
 	h.runSteps()
+	h.closeSegment()
 	h.inputsIntact("history-end")
 	for _, k := range h.kept {
 		if !bytes.Equal(k.dst, k.want) {
@@ -514,10 +633,65 @@ func (h *hist) run() {
 	h.m.Count("earlier_outputs_reverified", len(h.kept))
 }
 
+var c03EdgeLens = []int{1, 2, 31, 63, 64, 65, 127, 128, 129, 191, 192, 193, 255, 256, 257, 511, 512, 513, 1023, 1024, 1025}
+
+// runDstLong is the dedicated dst-longer-than-src history (kind 8): chained
+// oversized-dst calls on one cipher, interleaved with exact-length calls and
+// forward SetCounter; the first call is oversized and ends inside a block, the
+// second is an exact-length call (forced, so the desync is always observable).
+func (h *hist) runDstLong() {
+	r := h.r
+	switch h.i % 5 {
+	case 0:
+	case 1:
+		h.setCounter(1)
+	case 2:
+		h.setCounter(1 << 31)
+	case 3:
+		h.setCounter(uint32(r.Uint64N(1<<32 - 4096)))
+	case 4:
+		h.setCounter(uint32(1<<32 - 40 - r.IntN(60))) // ≥ 2560 bytes of room
+	}
+	pickLen := func() int {
+		if r.IntN(3) == 0 {
+			return 1 + r.IntN(1500)
+		}
+		return mon.Pick(r, c03EdgeLens)
+	}
+	n1 := pickLen()
+	for n1%64 == 0 { // position is block aligned here: end inside a block
+		n1 = pickLen()
+	}
+	if uint64(n1)+1100 > c03End-h.pos {
+		n1 = 1 + r.IntN(63)
+	}
+	h.xorX(n1, c03Extras[int(h.i/5)%len(c03Extras)])
+	h.xorX(1+r.IntN(1025), 0)
+	for s, reps := 0, 1+r.IntN(8); s < reps && !h.ended; s++ {
+		if h.pos+1800 > c03End {
+			break
+		}
+		switch x := r.IntN(12); {
+		case x < 7:
+			h.xorX(pickLen(), mon.Pick(r, c03Extras))
+		case x < 10:
+			h.xorX(pickLen(), 0)
+		case x < 11:
+			h.xorX(0, mon.Pick(r, c03Extras))
+		default:
+			if c, ok := h.forwardTarget(); ok && uint64(c) < 1<<32-40 {
+				h.setCounter(c)
+			}
+		}
+	}
+}
+
 func (h *hist) runSteps() {
 	r := h.r
 	sel := int(h.i / 16) // deterministic sub-choice, so that every gated situation is forced for any seed
 	switch h.kind {
+	case 8:
+		h.runDstLong()
 	case 0, 7:
 		h.startCounter(r.IntN(7))
 		h.randomSteps(1 + r.IntN(20))
